@@ -1,5 +1,5 @@
 use cosmwasm_std::{StdError, StdResult, Storage, Uint128};
-use cw_storage_plus::Item;
+use cw_storage_plus::{Item, Map};
 use white_whale_std::pool_network::asset::{Asset, AssetInfo};
 
 use white_whale_std::vault_network::vault::Config;
@@ -16,6 +16,12 @@ pub const ALL_TIME_BURNED_FEES: Item<Asset> = Item::new("all_time_burned_fees");
 
 // A counter for how many active loans are being performed
 pub const LOAN_COUNTER: Item<u32> = Item::new("loan_counter");
+
+// Protocol and flash loan fees that the loans completed so far have left in the vault. A loan compares the value
+// at its start with the value at its end to know what the loans nested in it owe on top of its own fees
+pub const LOAN_FEES_RETAINED: Item<Uint128> = Item::new("loan_fees_retained");
+// LOAN_FEES_RETAINED as it was when the loan at the given nesting depth started
+pub const LOAN_FEES_RETAINED_AT_START: Map<u32, Uint128> = Map::new("loan_fees_retained_at_start");
 
 /// Stores a fee in the given fees_storage_item
 pub fn store_fee(
